@@ -60,6 +60,19 @@ pub struct Case {
     /// also try an array mixing shreds of a second slice (error path must leave it untouched)
     pub mix: Option<u64>,
     pub leader: u8,
+    /// the shredder instance is not fresh: it has already shredded (and optionally restored) another
+    /// slice of this relative size - before the slice under test, or between shredding and
+    /// restoring it
+    #[serde(default)]
+    pub reuse: Option<Reuse>,
+}
+
+#[derive(Clone, Debug, Serialize, Deserialize)]
+pub struct Reuse {
+    /// erasure-coding input length of the other slice in 1/1000 of the shredder's limit
+    pub permille: u16,
+    pub between: bool,
+    pub restore: bool,
 }
 
 #[derive(Clone, Debug, Serialize, Deserialize)]
@@ -151,8 +164,9 @@ impl Property for C11 {
             subset,
             prop::option::weighted(0.2, any::<u64>()),
             0u8..4,
+            prop::option::weighted(0.3, (prop_oneof![2 => Just(1000u16), 1 => Just(0u16), 3 => 0u16..=1000], any::<bool>(), any::<bool>()).prop_map(|(permille, between, restore)| Reuse { permille, between, restore })),
         )
-            .prop_map(|(kind, len, parent, fill, slot, slice, is_last, subset, mix, leader)| Case { kind, len, parent, fill, slot, slice, is_last, subset, mix, leader })
+            .prop_map(|(kind, len, parent, fill, slot, slice, is_last, subset, mix, leader, reuse)| Case { kind, len, parent, fill, slot, slice, is_last, subset, mix, leader, reuse })
             .boxed()
     }
     fn run(&self, case: &Case) -> Outcome {
@@ -216,6 +230,32 @@ fn run<S: Shredder>(case: &Case) -> Outcome {
     out.label(format!("shredder={:?}", case.kind));
 
     let mut shredder = S::default();
+    // a shredder is a long-lived object in the node (one per block producer / blockstore slot):
+    // what it did before must not matter
+    let other_use = |shredder: &mut S, out: &mut Outcome| {
+        let Some(r) = &case.reuse else { return };
+        out.label(if r.between { "shredder-reused-between-shred-and-restore" } else { "shredder-reused-before" });
+        let olen = (max * r.permille as usize / 1000).max(payload_len(true, 0));
+        let odata = prng_bytes(case.slot ^ 0x5EED, olen - payload_len(true, 0));
+        let oslice = make_slice(case.slot + 1, 0, false, Some((case.slot, 9)), odata);
+        let res = catch(|| {
+            if let Ok(sh) = shredder.shred(&oslice, sk)
+                && r.restore
+            {
+                let mut arr: [Option<ValidatedShred>; TOTAL_SHREDS] = [const { None }; TOTAL_SHREDS];
+                for (i, s) in sh.iter().enumerate().skip(16).take(40) {
+                    arr[i] = Some(s.clone());
+                }
+                let _ = shredder.deshred(&mut arr);
+            }
+        });
+        if let Err(p) = res {
+            out.violate(format!("C11/reuse/panic/{}/{}", panic_site(&p), panic_msg(&p)), format!("other slice of {olen} bytes: {p}"));
+        }
+    };
+    if case.reuse.as_ref().is_some_and(|r| !r.between) {
+        other_use(&mut shredder, &mut out);
+    }
     let shredded = match catch(|| shredder.shred(&slice, sk)) {
         Ok(r) => r,
         Err(p) => {
@@ -246,6 +286,9 @@ fn run<S: Shredder>(case: &Case) -> Outcome {
         out.check(s.payload().index_in_slot() == case.slice as usize * TOTAL_SHREDS + i, "C11/shred-at-wrong-position", || format!("position {i}"));
         let v = ValidatedShred::try_new(s.as_shred().clone(), None, &pk);
         out.check(v.is_ok(), "C11/produced-shred-invalid", || format!("shred {i}: {:?}", v.err()));
+    }
+    if case.reuse.as_ref().is_some_and(|r| r.between) {
+        other_use(&mut shredder, &mut out);
     }
     let n_data = S::DATA_OUTPUT_SHREDS;
     let leader_bytes: Vec<Vec<u8>> = shreds.iter().map(|s| shred_bytes(s.as_shred())).collect();
